@@ -253,3 +253,48 @@ def run(F, R, tier, cfg):
             R.ob("FLOW-lifetime", "lifetime = exp_time(claims).duration_since(now)? : %s" % fmt(o, 200), ok, True)
             if not ok:
                 R.violation("FLOW-lifetime", p + "/lifetime", "the registration lifetime is not (only) the token's remaining lifetime: %s" % fmt(o, 240), c.span.loc)
+
+    version_dispatch(F, R)
+
+
+DESER = "<snap_tokens::AnyClaims as serde_core::de::Deserialize<'de>>::deserialize"
+
+
+def version_dispatch(F, R):
+    """V7 — claims-version dispatch: AnyClaims::V0 (the legacy claims, which carry no iss/aud/nbf/iat) is
+    constructed only when the `ver` claim is absent — on the None edge of a switch on the Option returned
+    by Value::get(_, "ver") itself, not on a value derived from it — and AnyClaims::V1 only under the
+    `as_u64() == 1` arm.  A `ver` that is present but not the number 1 must not fall through to V0."""
+    b = F.body(DESER)
+    if b is None:
+        R.anchor_missing(DESER)
+        return
+    R.fn(DESER)
+    cons = {}
+    for bi in sorted(b.live_blocks()):
+        for st in b.stmts(bi):
+            if st[0] == "=" and st[2][0] == "agg" and st[2][1][0] == "adt" and st[2][1][1] == "snap_tokens::AnyClaims":
+                cons.setdefault(st[2][1][2], []).append((bi, b.span_of(st[3])))
+    R.floor("TBL-version", len(cons.get("V0", [])) + len(cons.get("V1", [])), 2, "constructions of AnyClaims::V0 / ::V1 in Deserialize")
+
+    def is_get_ver(o):
+        x = o[1] if o[0] == "disc" else None
+        while isinstance(x, tuple) and x and x[0] in ("ref", "deref"):
+            x = x[2] if x[0] == "ref" else x[1]
+        return bool(x) and x[0] == "call" and x[1] == "serde_json::value::Value::get" and len(x[2]) == 2 and x[2][1] == ("lit", "str:ver", "&str")
+
+    for (bi, sp) in cons.get("V0", []):
+        ok, g = T.guarded_by(b, bi, lambda tk, o, g: is_get_ver(o), [0])
+        R.ob("TBL-version", "AnyClaims::V0 only when Value::get(\"ver\") is None", ok, True, {"rule": "TBL-version", "loc": sp.loc, "guard_block": g, "holds": ok})
+        if not ok:
+            R.violation("TBL-version", DESER + "/V0", "legacy V0 claims (no iss/aud/nbf) can be produced although a `ver` claim is present: the V0 "
+                        "construction is not on the None edge of Value::get(\"ver\")", sp.loc)
+    for (bi, sp) in cons.get("V1", []):
+        def p1(tk, o, g):
+            return b.term(g)[4] == "u64" and any(t.endswith("Value::as_u64") for t in tk) and any(t.endswith("Value::get") for t in tk)
+        ok, g = T.guarded_by(b, bi, p1, [1])
+        R.ob("TBL-version", "AnyClaims::V1 only when ver.as_u64() == 1", ok, True, {"rule": "TBL-version", "loc": sp.loc, "guard_block": g, "holds": ok})
+        if not ok:
+            R.violation("TBL-version", DESER + "/V1", "V1 claims can be produced for a `ver` other than the number 1", sp.loc)
+    other = [k for k in cons if k not in ("V0", "V1")]
+    R.extra["claims_versions_constructed"] = sorted(cons)
